@@ -15,7 +15,9 @@
 (***************************************************************************)
 EXTENDS Integers, Sequences
 
-CONSTANT Grp(_, _)
+CONSTANT
+  \* @type: (Int, Int) => Int;
+  Grp(_, _)
 
 Width(x) == IF Grp(x, 4) # 0 THEN 5
             ELSE IF Grp(x, 3) # 0 THEN 4
@@ -25,6 +27,7 @@ Width(x) == IF Grp(x, 4) # 0 THEN 5
 \* byte i (0-based) of the encoding
 VByte(x, i) == IF i + 1 < Width(x) THEN Grp(x, i) + 128 ELSE Grp(x, i)
 
+\* @type: Int => Seq(Int);
 EncVarU(x) ==
   IF Width(x) = 1 THEN <<VByte(x, 0)>>
   ELSE IF Width(x) = 2 THEN <<VByte(x, 0), VByte(x, 1)>>
@@ -41,6 +44,7 @@ EncVarU(x) ==
 (***************************************************************************)
 Low7(c) == IF c >= 128 THEN c - 128 ELSE c
 
+\* @type: (Seq(Int), Int, Int) => {ok: Bool, g: Seq(Int), n: Int};
 ReadGroups(s, p, avail) ==
   IF avail < 1 THEN [ok |-> FALSE, g |-> <<0, 0, 0, 0, 0>>, n |-> 0]
   ELSE IF s[p] < 128 THEN [ok |-> TRUE, g |-> <<s[p], 0, 0, 0, 0>>, n |-> 1]
@@ -53,6 +57,7 @@ ReadGroups(s, p, avail) ==
   ELSE IF avail < 5 THEN [ok |-> FALSE, g |-> <<0, 0, 0, 0, 0>>, n |-> 4]
   ELSE [ok |-> TRUE, g |-> <<Low7(s[p]), Low7(s[p + 1]), Low7(s[p + 2]), Low7(s[p + 3]), s[p + 4] % 16>>, n |-> 5]
 
+\* @type: Int => Seq(Int);
 GroupsOf(x) == <<Grp(x, 0), Grp(x, 1), Grp(x, 2), Grp(x, 3), Grp(x, 4)>>
 
 (***************************************************************************)
